@@ -21,11 +21,17 @@ def run(chk):
     chk.rule("OFFSET.cleanup", "clean-up union: Union with Negative iff paths reversed else Positive, into the tree iff requested, "
              "ReverseSolution(reverse_solution_ != paths_reversed), PreserveCollinear(preserve_collinear_) - all 16 cells")
     chk.rule("LOOP", "nothing written while offsetting one group is read while offsetting the next (several groups in one ClipperOffset)")
+    chk.rule("ZERASE", "the USINGZ copies of the offset code (clipper.offset.cpp: every join / cap helper has an #ifdef USINGZ twin) equal the plain "
+             "code after erasing Z-only constructs: the property holds in both builds or in neither")
     chk.rule("GROUP.strip-closed", "Group::Group strips a closing vertex (last == first) exactly for EndType::Polygon and EndType::Joined")
     chk.rule("TARGET.set", "solution, solution_tree and the derived miter threshold temp_lim_ are written by every ClipperOffset::Execute overload before "
              "they are read (output target of this call; MiterLimit() set after construction is honoured)")
     chk.rule("OFFSET.sign", "|delta| < 0.5 copies the inputs; group_delta_ = -delta iff a Polygon group is reversed, |delta| for open paths; "
              "a group is reversed iff its lowest path has negative area")
+    from ..engines import e6_siblings as e6
+    nz = e6.rule_usingz(AstDB("base"), AstDB("z"), chk, only=lambda fn: (fn.file or "").endswith(("clipper.offset.cpp", "clipper.offset.h")))
+    if nz < 20:
+        raise AnalysisBroken("ZERASE: only %d functions of clipper.offset.* paired between the plain and the USINGZ build" % nz)
     for cfg in cfgs:
         db = AstDB(cfg)
         e12.offset_cleanup_table(db, chk, cfg)
